@@ -157,6 +157,13 @@ class Scenario(object):
                     ops.append(['v_add', n])
                     if any(o[0] == n for o in w.orphans):
                         ops.append(['v_remove', n])
+                    if self.layer_ops:
+                        # a single subset shown without its dataset (add_subset / remove_subset are public)
+                        for j, g in enumerate(w.dc.subset_groups):
+                            if any(o[0] == n and o[1] is g for o in w.orphans):
+                                ops.append(['v_remove_subset', n, j])
+                            else:
+                                ops.append(['v_add_subset', n, j])
                 else:
                     ops.append(['v_remove', n])
                     if self.layer_ops:
@@ -214,6 +221,15 @@ class Scenario(object):
                 v.remove_layer(w.pool[op[1]])
                 w.given.remove(op[1])
                 w.orphans += [[op[1], s.group] for s in w.pool[op[1]].subsets]
+            elif k in ('v_add_subset', 'v_remove_subset'):
+                g = w.dc.subset_groups[op[2]]
+                sub = [s for s in w.pool[op[1]].subsets if s.group is g][0]
+                if k == 'v_add_subset':
+                    if v.add_subset(sub):
+                        w.orphans.append([op[1], g])
+                else:
+                    v.remove_subset(sub)
+                    w.orphans = [o for o in w.orphans if not (o[0] == op[1] and o[1] is g)]
             elif k == 'new_group':
                 w.dc.new_subset_group(subset_state=w.cids['x'] > 2.5, label='g')
             elif k == 'remove_group':
@@ -531,7 +547,7 @@ def run(tier):
         t0, coverage=cov, confirm=confirm,
         assumptions=['FigureCanvas draw/draw_idle are stubbed (rendering is not observable to the property)',
                      'a dataset removed from the collection is no longer "given" to the viewer when re-appended',
-                     'layers are added through add_data; remove_layer is applied to dataset layers only (its subset layers then stay until the dataset, the group or remove_data removes them, and new groups add no layer for it)',
+                     'layers are added through add_data, or add_subset for a subset whose dataset is not shown (removed again with remove_subset); remove_layer is applied to dataset layers only (its subset layers then stay until the dataset, the group or remove_data removes them, and new groups add no layer for it)',
                      'pickers: every ComponentIDComboHelper on the viewer state; relevant datasets = datasets of '
                      'the layers (scatter, histogram) or the reference dataset (image, profile)'])
 
